@@ -742,7 +742,8 @@ func accessPath(v ssa.Value) string {
 		return b + "[?]"
 	case *ssa.Alloc:
 		if x.Comment != "" {
-			return "local:" + x.Comment
+			// spilled parameters and address-taken locals render by name
+			return x.Comment
 		}
 	case *ssa.ChangeType:
 		return accessPath(x.X)
